@@ -50,7 +50,7 @@ fn any_ft() -> FatType {
     }
 }
 
-// @obl props=C08,C10 tier=quick fns=Fat12::get,Fat12::get_raw,Fat16::get,Fat16::get_raw,Fat32::get,Fat32::get_raw,read_fat
+// @obl props=C03,C08,C10 tier=quick fns=Fat12::get,Fat12::get_raw,Fat16::get,Fat16::get_raw,Fat32::get,Fat32::get_raw,read_fat
 // @desc forall cluster numbers < 2^28 and EVERY raw entry value (the device returns arbitrary bytes): read_fat seeks to the specified entry offset (k + k/2, 2k, 4k), and classifies the entry exactly as the specification says: 0 free, ..F7 bad, ..F8-..FF end of chain (every legal marker), else next cluster; FAT32 ignores the top four bits; cluster numbers in the FAT32 special range are reported Bad
 #[kani::proof]
 #[kani::unwind(6)]
